@@ -1,0 +1,236 @@
+//! Verification hook (compiled only with `--cfg rustemo_verif`).
+//!
+//! Writes what the compiler computed for a grammar (symbols, productions, LR
+//! table, settings in force) as JSON next to the generated parser, so that
+//! external tooling can compare the generated source with the computed table
+//! without executing anything. Nothing here is referenced in a normal build.
+
+use std::fmt::Write as _;
+use std::path::Path;
+
+use crate::grammar::{res_symbol, Associativity, Grammar};
+use crate::lang::rustemo_actions::Recognizer;
+use crate::settings::Settings;
+use crate::table::{Action, LRTable};
+
+fn esc(s: &str) -> String {
+    let mut o = String::with_capacity(s.len() + 2);
+    o.push('"');
+    for c in s.chars() {
+        match c {
+            '"' => o.push_str("\\\""),
+            '\\' => o.push_str("\\\\"),
+            '\n' => o.push_str("\\n"),
+            '\r' => o.push_str("\\r"),
+            '\t' => o.push_str("\\t"),
+            c if (c as u32) < 0x20 => {
+                let _ = write!(o, "\\u{:04x}", c as u32);
+            }
+            c => o.push(c),
+        }
+    }
+    o.push('"');
+    o
+}
+
+fn opt_str(s: &Option<String>) -> String {
+    match s {
+        Some(s) => esc(s),
+        None => "null".into(),
+    }
+}
+
+fn assoc(a: &Associativity) -> &'static str {
+    match a {
+        Associativity::None => "\"None\"",
+        Associativity::Left => "\"Left\"",
+        Associativity::Right => "\"Right\"",
+    }
+}
+
+fn join<I: IntoIterator<Item = String>>(items: I) -> String {
+    items.into_iter().collect::<Vec<_>>().join(",")
+}
+
+pub(crate) fn dump(
+    parser_file: &Path,
+    out_dir_actions: &Path,
+    file_name: &str,
+    grammar: &Grammar,
+    table: &LRTable,
+    settings: &Settings,
+) {
+    let mut o = String::new();
+    o.push('{');
+    let _ = write!(o, "\"parser_file\":{},", esc(&parser_file.to_string_lossy()));
+    let _ = write!(
+        o,
+        "\"actions_file\":{},",
+        esc(&out_dir_actions
+            .join(format!("{file_name}_actions.rs"))
+            .to_string_lossy())
+    );
+    let _ = write!(
+        o,
+        "\"settings\":{{\"parser_algo\":\"{:?}\",\"table_type\":\"{:?}\",\"generator_table_type\":\"{:?}\",\
+         \"lexer_type\":\"{:?}\",\"builder_type\":\"{:?}\",\"builder_loc_info\":{},\"partial_parse\":{},\
+         \"skip_ws\":{},\"lexical_disamb_most_specific\":{},\"lexical_disamb_longest_match\":{},\
+         \"lexical_disamb_grammar_order\":{},\"prefer_shifts\":{},\"prefer_shifts_over_empty\":{},\
+         \"fancy_regex\":{},\"actions\":{},\"force\":{},\"input_type\":{}}},",
+        settings.parser_algo,
+        settings.table_type,
+        settings.generator_table_type,
+        settings.lexer_type,
+        settings.builder_type,
+        settings.builder_loc_info,
+        settings.partial_parse,
+        settings.skip_ws,
+        settings.lexical_disamb_most_specific,
+        settings.lexical_disamb_longest_match,
+        settings.lexical_disamb_grammar_order,
+        settings.prefer_shifts,
+        settings.prefer_shifts_over_empty,
+        settings.fancy_regex,
+        settings.actions,
+        settings.force,
+        esc(&settings.input_type),
+    );
+    let _ = write!(
+        o,
+        "\"empty_index\":{},\"stop_index\":{},\"augmented_index\":{},\"augmented_layout_index\":{},\"start_index\":{},",
+        grammar.empty_index.0,
+        grammar.stop_index.0,
+        grammar.augmented_index.0,
+        grammar
+            .augmented_layout_index
+            .map_or("null".to_string(), |i| i.0.to_string()),
+        grammar.start_index.0,
+    );
+    let _ = write!(o, "\"has_layout\":{},", grammar.has_layout());
+
+    let terms = join(grammar.terminals.iter().map(|t| {
+        let rec = match &t.recognizer {
+            None => "null".to_string(),
+            Some(Recognizer::StrConst(s)) => {
+                format!("{{\"kind\":\"str\",\"text\":{}}}", esc(s.as_ref()))
+            }
+            Some(Recognizer::RegexTerm(r)) => {
+                format!("{{\"kind\":\"regex\",\"text\":{}}}", esc(r.as_ref()))
+            }
+        };
+        format!(
+            "{{\"idx\":{},\"name\":{},\"recognizer\":{},\"has_content\":{},\"reachable\":{},\"prio\":{},\"assoc\":{},\"annotation\":{}}}",
+            t.idx.0,
+            esc(&t.name),
+            rec,
+            t.has_content,
+            t.reachable.get(),
+            t.prio,
+            assoc(&t.assoc),
+            opt_str(&t.annotation),
+        )
+    }));
+    let _ = write!(o, "\"terminals\":[{terms}],");
+
+    let nonterms = join(grammar.nonterminals.iter().map(|n| {
+        format!(
+            "{{\"idx\":{},\"name\":{},\"productions\":[{}],\"reachable\":{},\"annotation\":{}}}",
+            n.idx.0,
+            esc(&n.name),
+            join(n.productions.iter().map(|p| p.0.to_string())),
+            n.reachable.get(),
+            opt_str(&n.annotation),
+        )
+    }));
+    let _ = write!(o, "\"nonterminals\":[{nonterms}],");
+
+    let prods = join(grammar.productions.iter().map(|p| {
+        format!(
+            "{{\"idx\":{},\"nonterminal\":{},\"ntidx\":{},\"kind\":{},\"rhs\":[{}],\"rhs_names\":[{}],\"rhs_is_bool\":[{}],\
+             \"prio\":{},\"assoc\":{},\"nops\":{},\"nopse\":{},\"dynamic\":{}}}",
+            p.idx.0,
+            p.nonterminal.0,
+            p.ntidx,
+            opt_str(&p.kind),
+            join(p.rhs.iter().map(|a| res_symbol(a).0.to_string())),
+            join(p.rhs.iter().map(|a| match &a.name {
+                Some(n) => esc(n.as_ref()),
+                None => "null".to_string(),
+            })),
+            join(p.rhs.iter().map(|a| a.is_bool.to_string())),
+            p.prio,
+            assoc(&p.assoc),
+            p.nops,
+            p.nopse,
+            p.dynamic,
+        )
+    }));
+    let _ = write!(o, "\"productions\":[{prods}],");
+
+    let rn = match &table.production_rn_lengths {
+        Some(v) => format!("[{}]", join(v.iter().map(|l| l.to_string()))),
+        None => "null".to_string(),
+    };
+    let _ = write!(o, "\"rn_lengths\":{rn},");
+    let _ = write!(
+        o,
+        "\"layout_state\":{},",
+        table
+            .layout_state
+            .map_or("null".to_string(), |s| s.0.to_string())
+    );
+
+    let states = join(table.states.iter().map(|s| {
+        let actions = join(s.actions.iter().map(|cell| {
+            format!(
+                "[{}]",
+                join(cell.iter().map(|a| match a {
+                    Action::Shift(st) => format!("{{\"s\":{}}}", st.0),
+                    Action::Reduce(p, l) => format!("{{\"r\":[{},{}]}}", p.0, l),
+                    Action::Accept => "\"a\"".to_string(),
+                }))
+            )
+        }));
+        let gotos = join(
+            s.gotos
+                .iter()
+                .map(|g| g.map_or("null".to_string(), |g| g.0.to_string())),
+        );
+        let sorted = join(
+            s.sorted_terminals
+                .iter()
+                .map(|(t, f)| format!("[{},{}]", t.0, f)),
+        );
+        format!(
+            "{{\"idx\":{},\"symbol\":{},\"actions\":[{}],\"gotos\":[{}],\"sorted_terminals\":[{}]}}",
+            s.idx.0, s.symbol.0, actions, gotos, sorted
+        )
+    }));
+    let _ = write!(o, "\"states\":[{states}]");
+    o.push('}');
+
+    // <dump dir>/<n>.table.json when RUSTEMO_VERIF_DUMP_DIR is set (n = a
+    // counter making names unique within the directory), otherwise next to the
+    // generated parser.
+    let target = match std::env::var_os("RUSTEMO_VERIF_DUMP_DIR") {
+        Some(dir) => {
+            let dir = std::path::PathBuf::from(dir);
+            let _ = std::fs::create_dir_all(&dir);
+            let mut n = 0usize;
+            loop {
+                let candidate = dir.join(format!(
+                    "{}-{}-{}.table.json",
+                    file_name,
+                    std::process::id(),
+                    n
+                ));
+                if !candidate.exists() {
+                    break candidate;
+                }
+                n += 1;
+            }
+        }
+        None => parser_file.with_extension("table.json"),
+    };
+    let _ = std::fs::write(target, o);
+}
